@@ -406,6 +406,42 @@ def _straight(f, b):
     return out
 
 
+def tsx_positive_control(ctx, rep):
+    """a rule whose expected count is zero needs a positive example that must match: the repair of defect F13 (selftest/F13-fix.diff) is
+    reverted in a scratch copy of /repo's current tree; on that copy the typestate engine has to find the panic it was repaired for
+    (`start_file_aligned:Err -> finish` reaches get_plain).  If the patch no longer applies to the tree under analysis, the control is
+    skipped with a note (the tree is not the one the control was written for); if it applies and nothing fires, the engine is blind."""
+    import os
+    import shutil
+    import subprocess
+    import tempfile
+    from engine.mir import Facts
+    from engine.report import Report
+    from rules.shared_typestate import typestate_rules
+    rule = "C12-TSX"
+    tmp = tempfile.mkdtemp(prefix="verif-tsx-ctl-", dir="/var/tmp")
+    try:
+        dst = os.path.join(tmp, "repo")
+        shutil.copytree(ctx.repo, dst, ignore=shutil.ignore_patterns("target", ".git"))
+        r = subprocess.run(["patch", "-R", "-p1", "-s", "-f", "-i", os.path.join(ctx.here, "selftest", "F13-fix.diff")], cwd=dst, stdout=subprocess.PIPE, stderr=subprocess.STDOUT)
+        if r.returncode != 0:
+            rep.note("C12-TSX positive control skipped: selftest/F13-fix.diff does not revert cleanly on this tree")
+            return
+        out = os.path.join(tmp, "facts.json")
+        env = dict(os.environ, VERIF_REPO=dst)
+        r = subprocess.run([os.path.join(ctx.here, "bin", "extract.sh"), out], env=env, stdout=subprocess.PIPE, stderr=subprocess.PIPE)
+        if r.returncode != 0 or not os.path.exists(out):
+            rep.note("C12-TSX positive control skipped: the scratch copy with F13 reverted does not build")
+            return
+        r2 = Report("C12", "quick", 0)
+        typestate_rules(Facts(out).with_inlining(), r2)
+        hits = sorted(i["key"] for i in r2.instances if i["verdict"] == "violation" and i["key"].startswith("panic:get_plain<-finish"))
+        rep.check(bool(hits), rule, "positive-control:F13-reverted", "", "with the F13 repair reverted in a scratch copy the engine reports %s" % hits[:1],
+                  "the typestate engine is blind: with the repair of F13 reverted it does not find the get_plain panic behind start_file_aligned:Err -> finish")
+    finally:
+        shutil.rmtree(tmp, ignore_errors=True)
+
+
 def run(ctx, rep):
     facts = ctx.facts
     rep.configs.append("default")
@@ -426,6 +462,8 @@ def run(ctx, rep):
     from rules.shared_typestate import typestate_rules
     typestate_rules(facts, rep)        # E6: every call sequence over the writer alphabet, on the abstract state machine read off the MIR
     rep.floor("C12-TSX", 30)
+    if ctx.tier == "thorough" and getattr(ctx, "name", None) is None:
+        tsx_positive_control(ctx, rep)
     from rules.C02 import limit_rules
     limit_rules(facts, rep)            # reported as C12/C02-LIMIT: "every call that is valid in its state succeeds" -- the longest valid name/comment/extra field is accepted
     from rules.C13 import raw_rules as _raw13
